@@ -137,6 +137,4 @@ theorem containsSorted_iff (n : Int) (xs : List Int) (hs : xs.Pairwise (Â· â‰¤ Â
       Â· exact hs' r k (by omega) hk
     omega
 
-#print axioms containsSorted_iff
-#print axioms digitsLE_spec
 end P.Helpers
